@@ -755,3 +755,139 @@ def run_process(ns, sim, fn, cwd=None, home=None, extra_path=None):
     outcome["nevents"] = len(sim.events)
     outcome["fired"] = sim.fired
     return outcome
+
+
+# ------------------------------------------------------------------ process state
+class ProcState(object):
+    """Module-level state of the doctrans package (global containers, attributes kept on function objects,
+    functools caches).  A *new* OS process starts from the import-time baseline; within one process the state
+    carries over from one API call to the next.  The simulator needs both: `restore_baseline()` models a fresh
+    process (every CLI invocation, the process after a kill, the start of every scenario)."""
+
+    CONTAINERS = (dict, list, set)
+
+    def __init__(self, pkg_prefix="doctrans"):
+        import copy
+
+        self.mods = {}
+        for name, mod in sorted(sys.modules.items()):
+            if mod is None or not (name == pkg_prefix or name.startswith(pkg_prefix + ".")) or ".tests" in name:
+                continue
+            bindings = dict(mod.__dict__)
+            contents, fattrs, caches = {}, {}, []
+            for k, v in bindings.items():
+                if k.startswith("__"):
+                    continue
+                if isinstance(v, self.CONTAINERS) and not isinstance(v, type(os.environ)):
+                    try:
+                        contents[k] = copy.deepcopy(v)
+                    except Exception:
+                        pass
+                elif callable(v) and getattr(v, "__module__", None) == name:
+                    if hasattr(v, "cache_clear"):
+                        caches.append(k)
+                    d = getattr(v, "__dict__", None)
+                    if isinstance(d, dict):
+                        fattrs[k] = dict(d)
+            self.mods[name] = (mod, bindings, contents, fattrs, caches)
+
+    def restore_baseline(self):
+        import copy
+
+        for name, (mod, bindings, contents, fattrs, caches) in self.mods.items():
+            md = mod.__dict__
+            for k in list(md):
+                if k not in bindings:
+                    v = md[k]
+                    del md[k]
+            for k, v in bindings.items():
+                if md.get(k, None) is not v:
+                    md[k] = v
+            for k, v in contents.items():
+                cur = md[k]
+                try:
+                    if isinstance(cur, dict):
+                        if cur != v or list(cur) != list(v):
+                            cur.clear()
+                            cur.update(copy.deepcopy(v))
+                    elif isinstance(cur, list):
+                        if cur != v:
+                            cur[:] = copy.deepcopy(v)
+                    elif isinstance(cur, set):
+                        if cur != v:
+                            cur.clear()
+                            cur.update(v)
+                except Exception:
+                    pass
+            for k, d in fattrs.items():
+                f = md[k]
+                fd = getattr(f, "__dict__", None)
+                if isinstance(fd, dict) and fd != d:
+                    for kk in list(fd):
+                        if kk not in d and kk != "__wrapped__":
+                            try:
+                                del fd[kk]
+                            except Exception:
+                                pass
+                    for kk, vv in d.items():
+                        if fd.get(kk, None) is not vv:
+                            try:
+                                fd[kk] = vv
+                            except Exception:
+                                pass
+            for k in caches:
+                try:
+                    md[k].cache_clear()
+                except Exception:
+                    pass
+        # caches created *after* import (a change under test may add new lru_cache-decorated functions: they are part
+        # of `bindings` because the baseline is captured after import; functions defined later are dropped above)
+
+
+class SimResult(object):
+    """What the parent keeps of a Sim that ran in a forked child."""
+
+    def __init__(self, sim):
+        self.events = sim.events
+        self.steps = sim.steps
+        self.step_at_event = sim.step_at_event
+        self.fired = sim.fired
+        self.created = set(sim.created)
+        self.touched = set(sim.touched)
+        self.root = sim.root
+
+
+def run_forked(fn):
+    """Run fn() in a forked child process and return its (picklable) result.  The child is a genuine separate OS
+    process: nothing it does to interpreter state reaches the parent; what it does to the world (the tmpfs
+    directory) is, as for any process, durable."""
+    import pickle
+
+    r, w = os.pipe()
+    pid = os.fork()
+    if pid == 0:
+        code = 0
+        try:
+            _orig.get("close", os.close)(r)
+            try:
+                payload = pickle.dumps(("ok", fn()))
+            except BaseException as e:  # a harness error inside the child
+                payload = pickle.dumps(("err", "%s: %s\n%s" % (type(e).__name__, e, traceback.format_exc()[-2000:])))
+            wf = _orig_open(w, "wb")
+            wf.write(payload)
+            wf.close()
+        except BaseException:
+            code = 3
+        finally:
+            os._exit(code)
+    _orig.get("close", os.close)(w)
+    rf = _orig_open(r, "rb")
+    data = rf.read()
+    rf.close()
+    _, status = os.waitpid(pid, 0)
+    if not data:
+        raise HarnessError("forked simulated process died without a result (wait status %s)" % status)
+    kind, val = pickle.loads(data)
+    if kind == "err":
+        raise HarnessError("inside forked simulated process: %s" % val)
+    return val
